@@ -13,6 +13,8 @@ TX_IFACE = {"pkgpath": "github.com/ProtonMail/gluon/db", "iface": "Transaction"}
 
 # helper packages / files injected by overlay next to the harnessed package
 COMPONENTS = {
+    "state_export": {"dir": "internal/state", "pkgname": "state", "files": ["zz_verif_fixture.go", "zz_verif_export.go"], "vsym": True,
+                     "gen_stubs": [dict(TX_IFACE, type="verifTxBase")]},
     "verifdb": {"dir": "internal/verifdb", "pkgname": "verifdb", "files": ["db.go", "tx.go"], "vsym": True,
                 "gen_stubs": [dict(TX_IFACE, type="txBase")]},
 }
@@ -253,6 +255,7 @@ CHECKS["C06"] = {
     "explanation": "Symbolic execution of backend user.apply and every apply* / setMessageMailboxes / setMessageFlags / userDBWrite (real go/ssa) on a directly constructed user with the relational model and a store stub: symbolic update kind (all 11), target object (known / unknown / protected recovery object) and database/store fault schedule; obligations: acknowledged exactly once with the returned error, no panic, failed update leaves the index unchanged, every listed message keeps its bytes, duplicate delivery changes nothing.",
     "harnesses": [
         {"name": "apply", "pkg": "internal/backend", "pkgname": "backend", "entry": "VerifC06Apply", "files": ["zz_verif_backend.go"], "with": BACKEND_WITH,
+         "gen_stubs": [{"pkgpath": "github.com/ProtonMail/gluon/connector", "iface": "Connector", "type": "verifConnBase"}],
          "params": {"quick": grid(faults=[0, 1]), "thorough": grid(faults=[0, 1, 2])},
          "cover": ["apply-ok", "apply-error", "replay-ok"]},
     ],
@@ -265,10 +268,25 @@ CHECKS["C07"] = {
     "explanation": "Effect-ordering protocol around the message store and the index transaction, with failing steps and crash points as symbolic variables: connector-driven message creation / update / deletion (user.apply -> applyMessagesCreated / applyMessageUpdated / applyMessageDeleted) run against stubs that log every externally visible effect (store write/delete, commit); for every prefix of that log the start-up procedure (user.deleteAllMessagesMarkedDeleted, user.cleanupStaleStoreData - executed symbolically on the post-crash state) must leave every listed message fetchable, no cache file without a row and no message marked deleted.",
     "harnesses": [
         {"name": "crash", "pkg": "internal/backend", "pkgname": "backend", "entry": "VerifC07Crash", "files": ["zz_verif_backend.go"], "with": BACKEND_WITH,
+         "gen_stubs": [{"pkgpath": "github.com/ProtonMail/gluon/connector", "iface": "Connector", "type": "verifConnBase"}],
          "params": {"quick": grid(faults=[0, 1]), "thorough": grid(faults=[0, 1, 2])},
          "cover": ["op-ok", "crash-point"]},
     ],
     "stubs": ["internal/verifdb: Write is atomic and durable at commit, rolled back on error (contract of sqlite3 wrapTx - SQLite itself is outside)", "store.Store stub: each Set/Delete is atomic and durable in order"],
     "outside": ["durability itself (SQLite WAL, fsync, the file system)", "process kill inside a store write (torn file: C09)", "mailbox create/delete/rename and client commands (APPEND ordering is decided under C20's harness obligations 'stored bytes present when OK')"],
     "assumptions": ["each logged effect is atomic and durable in order; a failed transaction function leaves no trace"],
+}
+
+CHECKS["C18"] = {
+    "explanation": "Exhaustive dispatch matrix decided through the real go/ssa of Session.handleCommand / handle{Any,NotAuthenticated,Authenticated,Selected}Command and State.Selected for every payload type in the protocol states 'no state' and 'state without selected mailbox' (any access to backend, database or connector would be a stub-missing / nil dereference failure), plus Backend.getUserID as a state-machine step from a symbolic failure count with a stub connector: wrong credentials never authenticate, success resets the counter, the third consecutive failure enters the jail and the next attempt blocks.",
+    "harnesses": [
+        {"name": "dispatch", "pkg": "internal/session", "pkgname": "session", "entry": "VerifC18Dispatch", "files": ["zz_verif_c18.go"], "with": ["state_export"],
+         "params": {"quick": [{}], "thorough": [{}]}, "cover": ["refused-not-authenticated", "refused-not-selected", "login-twice"]},
+        {"name": "jail", "pkg": "internal/backend", "pkgname": "backend", "entry": "VerifC18Jail", "files": ["zz_verif_backend.go"], "with": BACKEND_WITH,
+         "gen_stubs": [{"pkgpath": "github.com/ProtonMail/gluon/connector", "iface": "Connector", "type": "verifConnBase"}],
+         "params": {"quick": [{"faults": 0}], "thorough": [{"faults": 0}]}, "cover": ["login-ok", "jail-entered", "failure-counted"]},
+    ],
+    "stubs": ["connector.Connector stub (Authorize returns a chosen answer)", "time.AfterFunc -> recorded, never fired", "sync.WaitGroup / Mutex -> single-goroutine model (Wait on a non-zero group = BLOCKED)", "profiling / observability / reporter / logrus -> no-op"],
+    "outside": ["'each user has its own database, store and connector' is object wiring, not a computation", "real time (that the jail lasts exactly loginJailTime)", "commands after CLOSE/UNSELECT in a full session (the state without snapshot is the same protocol state)"],
+    "assumptions": [],
 }
